@@ -485,6 +485,7 @@ def emit_rows() -> typing.List[typing.Tuple[str, str, str]]:
         ('TgtC', 'KPortId', cbase, r'#define\s+\{\{\s*T\s*\|\s*full_reference_name\s*\}\}_FIXED_PORT_ID_\s'),
         ('TgtCpp', 'KPortId', cppc, r'\sFixedPortId\s*='),
         ('TgtPy', 'KPortId', pyb, r'\s_FIXED_PORT_ID_\s*='),
+        ('TgtPy', 'KSvcPortId', rd('py/templates/ServiceType.j2'), r'\s_FIXED_PORT_ID_\s*='),
         ('TgtC', 'KConst', cdef, r'#define\s+\{\{\s*t\s*\|\s*full_reference_name\s*\}\}_\{\{\s*constant\.name\s*\}\}'),
         ('TgtCpp', 'KConst', cppc, r'static constexpr\s+\{\{\s*constant\.data_type\s*\|\s*declaration\s*\}\}'),
         ('TgtPy', 'KConst', pyb, r'\{\{\s*target\s*\}\}\s*=\s*\{\{\s*c\.value\.as_native_integer\(\)'),
@@ -565,6 +566,21 @@ def names_and_flags() -> str:
         if re.search(r'static constexpr const std::size_t MAX_INDEX =', rd(rel)) and ('TgtCpp', 'MAX_INDEX') not in names:
             names.append(('TgtCpp', 'MAX_INDEX'))
     sites = []
+    cppsvc = rd('cpp/templates/ServiceType.j2')
+    sa = cppsvc.find('struct _traits_')
+    if sa < 0:
+        raise Unsupported('template scan: C++ service _traits_ block not found')
+    sb = cppsvc.find('};', sa)
+    for m in re.finditer(r'static constexpr\s+(?:\{\{[^}]*\}\}|[\w:]+)\s+(\w+)\s*=\s*(\w+);', cppsvc[sa:sb]):
+        names.append(('TgtCpp', 'Svc.' + m.group(1)))
+        sites.append(('TgtCpp', 'Svc.' + m.group(1), enclosing(cppsvc, sa + m.start()), m.group(2)))
+    if len(re.findall(r'static constexpr', cppsvc)) != len([x for x in names if x[1].startswith('Svc.')]):
+        raise Unsupported('template scan: a static constexpr of cpp/templates/ServiceType.j2 lies outside its _traits_ block')
+    for alias, part in (('Request', 'request_type'), ('Response', 'response_type')):
+        if not re.search(r'using %s\s*=\s*\{\{\s*T\s*\|\s*short_reference_name\s*\}\}::\{\{\s*T\.%s\s*\|\s*short_reference_name\s*\}\};' % (alias, part),
+                         cppsvc):
+            raise Unsupported('template scan: C++ service alias %s is not T.%s' % (alias, part))
+        names.append(('TgtCpp', 'Svc.' + alias))
     for m in re.finditer(r'_HAS_FIXED_PORT_ID_[ \t]+(\w+)', cbase):
         sites.append(('TgtC', '_HAS_FIXED_PORT_ID_', enclosing(cbase, m.start()), m.group(1)))
     for nm in ('HasFixedPortID', 'IsServiceType'):
@@ -618,6 +634,9 @@ def scan_templates() -> str:
     n = _norm_template(pyb)
     rows.append(('TgtPy', 'KExtentBytes', mexp_of(_one(r' _EXTENT_BYTES_ = ' + J + ' ', n, 'Python _EXTENT_BYTES_').group(1))))
     rows.append(('TgtPy', 'KPortId', mexp_of(_one(r' _FIXED_PORT_ID_ = ' + J + ' ', n, 'Python _FIXED_PORT_ID_').group(1))))
+    # the service class itself (py/templates/ServiceType.j2)
+    rows.append(('TgtPy', 'KSvcPortId', mexp_of(_one(r' _FIXED_PORT_ID_ = ' + J + ' ', _norm_template(rd('py/templates/ServiceType.j2')),
+                                                     'Python service _FIXED_PORT_ID_').group(1))))
     py_asserts = '{%- assert type.extent % 8 == 0 %}' in pyb
 
     # up-front capacity checks
